@@ -1786,39 +1786,45 @@ _generations_tuple(PyObject* ro)
 static PyObject*
 verify_changed(VB* self, PyObject* ignored)
 {
-    PyObject *t, *ro;
+    PyObject *t, *ro, *generations;
 
-    VB_clear(self);
-
+    /* Snapshot the generations *before* dropping the caches, see
+       VerifyingBase.changed in adapter.py. */
     t = PyObject_GetAttr(OBJECT(self), str_registry);
     if (t == NULL)
-        return NULL;
+        goto error;
 
     ro = PyObject_GetAttr(t, strro);
     Py_DECREF(t);
     if (ro == NULL)
-        return NULL;
+        goto error;
 
     t = PyObject_CallFunctionObjArgs(OBJECT(&PyTuple_Type), ro, NULL);
     Py_DECREF(ro);
     if (t == NULL)
-        return NULL;
+        goto error;
 
     ro = PyTuple_GetSlice(t, 1, PyTuple_GET_SIZE(t));
     Py_DECREF(t);
     if (ro == NULL)
-        return NULL;
+        goto error;
 
-    self->_verify_generations = _generations_tuple(ro);
-    if (self->_verify_generations == NULL) {
+    generations = _generations_tuple(ro);
+    if (generations == NULL) {
         Py_DECREF(ro);
-        return NULL;
+        goto error;
     }
 
-    self->_verify_ro = ro;
+    VB_clear(self);
+    Py_XSETREF(self->_verify_generations, generations);
+    Py_XSETREF(self->_verify_ro, ro);
 
     Py_INCREF(Py_None);
     return Py_None;
+
+error:
+    VB_clear(self);
+    return NULL;
 }
 
 /*
